@@ -91,12 +91,15 @@ fn parse_num(s: &str) -> Result<f64, String> {
 struct Toks<'a> {
     t: Vec<&'a str>,
     i: usize,
+    /// results of earlier runs of the same case (`@k` operands)
+    prior: &'a HashMap<usize, String>,
 }
 impl<'a> Toks<'a> {
-    fn new(s: &'a str) -> Self {
+    fn new(s: &'a str, prior: &'a HashMap<usize, String>) -> Self {
         Toks {
             t: s.split_ascii_whitespace().collect(),
             i: 0,
+            prior,
         }
     }
     fn next(&mut self) -> Result<&'a str, String> {
@@ -145,6 +148,15 @@ impl<'a> Toks<'a> {
         Ok(Polygon::new(ext, holes))
     }
     fn mpoly<F: Fl>(&mut self) -> Result<MultiPolygon<F>, String> {
+        if let Some(tok) = self.t.get(self.i) {
+            if let Some(k) = tok.strip_prefix('@') {
+                self.i += 1;
+                let k: usize = k.parse().map_err(|_| "bad reference".to_string())?;
+                let text = self.prior.get(&k).ok_or_else(|| "unresolved reference".to_string())?;
+                let mut sub = Toks::new(text, self.prior);
+                return sub.mpoly::<F>();
+            }
+        }
         let n = self.usize()?;
         let mut v = Vec::with_capacity(n);
         for _ in 0..n {
@@ -190,7 +202,7 @@ fn show_mpoly<F: Fl>(m: &MultiPolygon<F>) -> String {
 
 fn classify_panic(msg: &str, loc: &str) -> String {
     if msg.contains(verif::BUDGET_MESSAGE) {
-        return "BUDGET".into();
+        return format!("BUDGET bumps={}", verif::bumps());
     }
     if msg.contains("index out of bounds") && loc.contains("connect_edges.rs") {
         return "PANIC index".into();
@@ -630,6 +642,90 @@ fn parse_et(s: &str) -> Result<EdgeType, String> {
     }
 }
 
+/// ORDLAWS: the laws of the two orders evaluated with the real `cmp` / `compare_segments` on the events
+/// that co-occur in one sweep.
+fn run_ordlaws<F: Fl>(t: &mut Toks) -> Result<String, String> {
+    let op = t.op()?;
+    let budget = t.usize()? as u64;
+    let a = t.mpoly::<F>()?;
+    let b = t.mpoly::<F>()?;
+    verif::reset(budget);
+    let r = guarded(|| {
+        let mut sb = inf_box::<F>();
+        let mut cb = inf_box::<F>();
+        let mut q = fill_queue(&a.0, &b.0, &mut sb, &mut cb, op);
+        if sb.min.x.to64() == f64::INFINITY || cb.min.x.to64() == f64::INFINITY {
+            return "EMPTYBOX".to_string();
+        }
+        let evs = subdivide(&mut q, &sb, &cb, op);
+        let n = evs.len();
+        let (mut pairs, mut eq, mut anti, mut triples, mut trans) = (0u64, 0u64, 0u64, 0u64, 0u64);
+        let lim = n.min(300);
+        for i in 0..lim {
+            for j in (i + 1)..lim {
+                pairs += 1;
+                let x = evs[i].cmp(&evs[j]);
+                let y = evs[j].cmp(&evs[i]);
+                if x == Ordering::Equal || y == Ordering::Equal {
+                    eq += 1;
+                }
+                if x != y.reverse() {
+                    anti += 1;
+                }
+            }
+        }
+        // transitivity on windows of the pop order (all triples when few events)
+        let w = if n <= 40 { n } else { 8 };
+        for i in 0..lim {
+            for j in (i + 1)..lim.min(i + w) {
+                for k in (j + 1)..lim.min(i + w) {
+                    triples += 1;
+                    let ab = evs[i].cmp(&evs[j]);
+                    let bc = evs[j].cmp(&evs[k]);
+                    let ac = evs[i].cmp(&evs[k]);
+                    if ab == bc && ab != ac {
+                        trans += 1;
+                    }
+                    let ba = evs[j].cmp(&evs[i]);
+                    let ca = evs[k].cmp(&evs[i]);
+                    let cb_ = evs[k].cmp(&evs[j]);
+                    if cb_ == ba && cb_ != ca {
+                        trans += 1;
+                    }
+                }
+            }
+        }
+        // segments: left events whose x-extents overlap
+        let lefts: Vec<&Rc<SweepEvent<F>>> = evs.iter().filter(|e| e.is_left() && e.get_other_event().is_some()).collect();
+        let (mut sp, mut seq, mut santi) = (0u64, 0u64, 0u64);
+        let ll = lefts.len().min(150);
+        for i in 0..ll {
+            for j in (i + 1)..ll {
+                let (e1, e2) = (lefts[i], lefts[j]);
+                let (o1, o2) = (e1.get_other_event().unwrap(), e2.get_other_event().unwrap());
+                if e1.point.x > o2.point.x || e2.point.x > o1.point.x {
+                    continue;
+                }
+                sp += 1;
+                let x = compare_segments(e1, e2);
+                let y = compare_segments(e2, e1);
+                if x == Ordering::Equal || y == Ordering::Equal {
+                    seq += 1;
+                }
+                if x != y.reverse() {
+                    santi += 1;
+                }
+            }
+        }
+        format!(
+            "OK n={} pairs={} eq={} antisym={} triples={} trans={} segpairs={} segeq={} segantisym={}",
+            n, pairs, eq, anti, triples, trans, sp, seq, santi
+        )
+    });
+    verif::reset(u64::MAX);
+    Ok(r.unwrap_or_else(|e| e))
+}
+
 // ---------------------------------------------------------------------------------------------
 // SPLAY: operation histories on SplayTree<i64, i64> and SplaySet<i64>
 
@@ -910,12 +1006,16 @@ fn run_splay_set(t: &mut Toks) -> Result<String, String> {
 
 // ---------------------------------------------------------------------------------------------
 
-fn dispatch(req: &str) -> String {
-    let mut t = Toks::new(req);
+fn dispatch(req: &str, prior: &HashMap<usize, String>) -> String {
+    let mut t = Toks::new(req, prior);
     let kind = match t.next() {
         Ok(k) => k,
         Err(e) => return format!("BADREQ {}", e),
     };
+    if kind.starts_with('X') {
+        // answered by the model only (reference computations under exact arithmetic)
+        return "MODELONLY".into();
+    }
     let r = match kind {
         "SPLAYMAP" => run_splay_map(&mut t),
         "SPLAYSET" => run_splay_set(&mut t),
@@ -940,6 +1040,8 @@ fn dispatch(req: &str) -> String {
                 ("ISECT", "f32") => run_isect::<f32>(&mut t),
                 ("ORIENT", "f64") => run_orient::<f64>(&mut t),
                 ("ORIENT", "f32") => run_orient::<f32>(&mut t),
+                ("ORDLAWS", "f64") => run_ordlaws::<f64>(&mut t),
+                ("ORDLAWS", "f32") => run_ordlaws::<f32>(&mut t),
                 ("PI", "f64") => run_pi::<f64>(&mut t),
                 ("PI", "f32") => run_pi::<f32>(&mut t),
                 _ => Err(format!("unknown request {} {}", kind, prec)),
@@ -952,22 +1054,127 @@ fn dispatch(req: &str) -> String {
     }
 }
 
+/// C12: every literal BOOL request of the input is executed once (baseline), then again in reverse
+/// order, then interleaved with unrelated large calls, then concurrently on several threads in
+/// different rotations; every answer must equal the baseline answer of the same request.
+fn hist_main(args: &[String]) {
+    let threads: usize = args.get(0).and_then(|s| s.parse().ok()).unwrap_or(8);
+    let rounds: usize = args.get(1).and_then(|s| s.parse().ok()).unwrap_or(3);
+    let stdin = std::io::stdin();
+    let mut reqs: Vec<String> = Vec::new();
+    for line in stdin.lock().lines() {
+        let line = line.unwrap();
+        if let Some(rest) = line.strip_prefix("RUN ") {
+            if let Some((_, req)) = rest.split_once(' ') {
+                if req.starts_with("BOOL ") && !req.contains('@') {
+                    reqs.push(req.to_string());
+                }
+            }
+        }
+    }
+    let empty: HashMap<usize, String> = HashMap::new();
+    let base: Vec<String> = reqs.iter().map(|r| dispatch(r, &empty)).collect();
+    let mut executions = reqs.len() as u64;
+    let mut mismatches = 0u64;
+    let mut modified = 0u64;
+    let mut report = |i: usize, what: &str, got: &str, base: &str| {
+        if got == "OPERANDS-MODIFIED" {
+            modified += 1;
+        }
+        if got != base {
+            mismatches += 1;
+            if mismatches <= 5 {
+                println!("HISTDIFF request#{} {} got={} baseline={}", i, what, &got[..got.len().min(120)], &base[..base.len().min(120)]);
+            }
+        }
+    };
+    for r in 0..rounds {
+        // reverse order
+        for i in (0..reqs.len()).rev() {
+            let got = dispatch(&reqs[i], &empty);
+            executions += 1;
+            report(i, "reverse-order", &got, &base[i]);
+        }
+        // interleaved with a large unrelated call
+        let big = stack::comb(2000 + r, 0.0);
+        for i in (0..reqs.len()).step_by(7) {
+            let _ = MultiPolygon(vec![big.clone()]).union(&MultiPolygon(vec![big.clone()]));
+            let got = dispatch(&reqs[i], &empty);
+            executions += 1;
+            report(i, "after-large-call", &got, &base[i]);
+        }
+    }
+    // concurrently
+    let reqs_arc = std::sync::Arc::new(reqs);
+    let base_arc = std::sync::Arc::new(base);
+    let mut handles = Vec::new();
+    for t in 0..threads {
+        let reqs = reqs_arc.clone();
+        let base = base_arc.clone();
+        handles.push(std::thread::spawn(move || {
+            install_hook();
+            let empty: HashMap<usize, String> = HashMap::new();
+            let n = reqs.len();
+            let mut bad = Vec::new();
+            let mut ex = 0u64;
+            for s in 0..n {
+                let i = (s * (2 * t + 1) + t * 13) % n.max(1);
+                let got = dispatch(&reqs[i], &empty);
+                ex += 1;
+                if got != base[i] {
+                    bad.push((i, got));
+                }
+            }
+            (ex, bad)
+        }));
+    }
+    for h in handles {
+        let (ex, bad) = h.join().unwrap();
+        executions += ex;
+        for (i, got) in bad {
+            report(i, "concurrent", &got, &base_arc[i]);
+        }
+    }
+    println!(
+        "HISTRES requests={} executions={} mismatches={} threads={} operands_modified={}",
+        reqs_arc.len(),
+        executions,
+        mismatches,
+        threads,
+        modified
+    );
+}
+
 fn main() {
     let args: Vec<String> = std::env::args().collect();
     if args.len() >= 2 && args[1] == "stack" {
         stack::main(&args[2..]);
         return;
     }
+    if args.len() >= 2 && args[1] == "hist" {
+        install_hook();
+        hist_main(&args[2..]);
+        return;
+    }
     install_hook();
     let stdin = std::io::stdin();
     let stdout = std::io::stdout();
     let mut out = std::io::BufWriter::new(stdout.lock());
+    let mut prior: HashMap<usize, String> = HashMap::new();
     for line in stdin.lock().lines() {
         let line = line.unwrap();
         writeln!(out, "{}", line).unwrap();
+        if line.starts_with("CASE ") {
+            prior.clear();
+        }
         if let Some(rest) = line.strip_prefix("RUN ") {
             let (k, req) = rest.split_once(' ').unwrap_or((rest, ""));
-            let ans = dispatch(req);
+            let ans = dispatch(req, &prior);
+            if let (Ok(kn), Some(pos)) = (k.parse::<usize>(), ans.find(" MP ")) {
+                if ans.starts_with("OK ") {
+                    prior.insert(kn, ans[pos + 4..].to_string());
+                }
+            }
             writeln!(out, "IMPL {} {}", k, ans).unwrap();
             out.flush().unwrap();
         }
